@@ -40,6 +40,7 @@ type Engine struct {
 	noops         []string
 	repoModule    string
 	sweep         bool
+	reach         bool
 	repoDir       string
 	libDir        string
 	known         []KnownFinding
@@ -466,6 +467,13 @@ func (r *Run) verifyTop() {
 	}
 	// reachability of the exit (anti-vacuity of assumed callee posts / invariants)
 	r.satCheck(out, r.funcLabel()+"#vacuity:exit", fc.Tags, tTrue)
+	if e.reach {
+		// every return path should be reachable; an unreachable one is dead code or a contradiction among assumptions
+		for i, rr := range r.topRets {
+			r.satCheck(rr.st, fmt.Sprintf("%s#reach:path%d", r.funcLabel(), i+1), fc.Tags, tTrue)
+			r.obls[len(r.obls)-1].Kind = "reach"
+		}
+	}
 	perPath := len(r.topRets) > 1 && len(r.topRets) <= 16
 	for _, cl := range fc.Ensures {
 		if !perPath {
